@@ -20,7 +20,11 @@ CASE_TYPE = "c17_case"
 SHARD = 60
 CASE_TIMEOUT = 30
 
-RULE = ("case = (1-2 tensors over a 1-3 rank loop nest, 1-3 bindings (tensor, rank, coord/payload/elem, element "
+RULE = ("case = (1-2 tensors over a 1-3 rank loop nest, each Format tensor built along one of six paths that must "
+        "give the declared authoritative shape - declared directly, swizzleRanks from a source rotated left/right "
+        "(3-cycles for 3 ranks), fromFiber of another tensor's root with/without restated shape, "
+        "Tensor(rank_ids, shape).setRoot(other root) - with stored values in the shared value modes and optional "
+        "read-only queries before use; 1-3 bindings (tensor, rank, coord/payload/elem, element "
         "bits, evict-on root or an outer/own rank) each with a synthetic read and/or write trace cut from one "
         "random sparse loop-nest iteration (positions in and beyond the rank's shape), line size of 1-4 elements, "
         "a buffet capacity, 0-3 ascending cache capacities from 0 to unbounded, an input/filter trace pair); "
@@ -128,7 +132,12 @@ def gen_case(rng, ties=None, nb=None):
     for _ in range(nt):
         k = rng.randint(1, Lr)
         ranks = sorted(rng.sample(range(Lr), k))
-        tensors.append({"ranks": ranks, "shape": [rng.randint(2, 6) for _ in ranks]})
+        shape = [rng.randint(2, 6) for _ in ranks]
+        # how the Format's tensor is built (c17_util.build_tensor) and what it stores; not part of the Coq case:
+        # the authoritative shape is the declared one along every path
+        pts = sorted({tuple(rng.randrange(s) for s in shape) for _ in range(rng.randint(1, 4))})
+        tensors.append({"ranks": ranks, "shape": shape, "build": rng.choice([0, 1, 2, 3, 4, 5]),
+                        "pts": [list(p) for p in pts]})
     line = rng.choice([32, 64, 128])
     nb = nb or rng.choice([1, 1, 2, 2, 3])
     bindings = []
@@ -211,6 +220,39 @@ def gen_shared(rng):
         return case
 
 
+def gen_built(rng):
+    """a 3-rank tensor with three different rank shapes, built by a 3-cycle swizzle or re-rooted from another
+    tensor's fibers; one binding per case on a random rank with a pinned write trace whose positions straddle
+    all three shapes (real storage below the bound rank's shape, staging area above)"""
+    while True:
+        case = gen_case(rng, nb=1)
+        if case["L"] != 3:
+            continue
+        shape = rng.sample([2, 3, 4, 5, 6, 7], 3)
+        pts = sorted({tuple(rng.randrange(s) for s in shape) for _ in range(rng.randint(2, 4))})
+        case["tensors"] = [{"ranks": [0, 1, 2], "shape": shape, "build": rng.choice([1, 2, 3, 4, 5]),
+                            "pts": [list(p) for p in pts]}]
+        b = case["bindings"][0]
+        b["t"] = 0
+        r = b["r"] = rng.choice([0, 1, 2])
+        b["evict"] = rng.choice([None] + [e for e in range(r)]) if r else None
+        iters = gen_iterations(rng, 3)
+        pre = prefixes(iters, r + 1)
+        hi = max(shape) + 1
+        rows = [[list(st), list(co), rng.randrange(hi)] for st, co in pre if rng.random() < 0.9]
+        if len(rows) < 2:
+            continue
+        b["write"] = rows
+        b["read"] = [[x[0], x[1], x[2]] for x in rows if rng.random() < 0.5] if rng.random() < 0.6 else None
+        if not case["caps"]:
+            case["caps"] = [rng.choice([1, 2, 3, 1000]) * case["line"]]
+        if r == 0 and b["evict"] is None:
+            pass          # buffet pins (rank != evict-on) and the cache pins in any case
+        if has_ties(case):
+            case["caps"] = []
+        return case
+
+
 def gen_filter(rng, case):
     n = rng.choice([1, 2, 2])
     m = n + rng.choice([0, 0, 1])
@@ -240,6 +282,7 @@ def streams(tier, rng):
     yield ("random", [gen_case(rng) for _ in range(n)], False)
     yield ("multi-binding-no-ties", [gen_case(rng, ties=False, nb=3) for _ in range(n // 3)], False)
     yield ("shared-rank", [gen_shared(rng) for _ in range(n // 6)], False)
+    yield ("built-tensors", [gen_built(rng) for _ in range(n // 4)], False)
     if 1 in registered_regions() or os.environ.get("C17_TIES"):
         # same-step read/write to different lines with cache runs: known finding, region 1
         yield ("cache-ties", [gen_case(rng, ties=True) for _ in range(n // 6)], False)
@@ -275,7 +318,8 @@ def describe(case):
                 for w in b["write"]) for b in case["bindings"]),
             "evict_root": any(b["evict"] is None for b in case["bindings"]),
             "multi_elem_line": any(case["line"] // b["foot"] > 1 for b in case["bindings"]),
-            "cache_runs": len(case["caps"]), "ties": has_ties(case), "filter": case["fin"] is not None}
+            "cache_runs": len(case["caps"]), "ties": has_ties(case), "filter": case["fin"] is not None,
+            "tensor_build": ",".join(str(t.get("build", 0)) for t in case["tensors"])}
 
 
 # ------------------------------------------------------------------ Coq literal
